@@ -198,7 +198,7 @@ Print Assumptions C10_lim_cancel_conserves_before_grant.
 
 Theorem C10_lim_cancel_conserves_after_grant : forall v s t b, reach v s -> tainted s = false ->
   ((exists e, phase_of s t = Waiting b e /\ evset s e = true /\ (fcanc s t = true \/ mustc s t = true)) \/
-   (phase_of s t = FastYield b /\ b = t /\ mustc s t = true)) ->
+   (phase_of s t = FastYield b /\ mustc s t = true)) ->
   let s' := fst (step s (Resume t)) in
   snd (step s (Resume t)) = RCancelled /\ ~ In b (borrowers s') /\ ~ In b (held s') /\ ~ In b (resv s') /\
   held s' = held s /\ phase_of s' t = Idle /\ tainted s' = false /\ Inv0 s' /\
@@ -208,14 +208,15 @@ Theorem C10_lim_cancel_conserves_after_grant : forall v s t b, reach v s -> tain
 Proof. exact lim_cancel_after_grant. Qed.
 Print Assumptions C10_lim_cancel_conserves_after_grant.
 
-Theorem C10_lim_cancel_foreign_fastyield_refuted :
-  exists ops, let s := final step (init (Some 1)) ops in
-    snd (step s (Resume 1)) = RRuntime /\
-    let s' := fst (step s (Resume 1)) in
-    phase_of s' 1 = Idle /\ held s' = [] /\ borrowers s' = [11] /\ resv s' = [] /\ tainted s' = true /\
-    snd (step s' (AcqOnNowait 2 2)) = RWouldBlock.
-Proof. exact lim_cancel_foreign_fastyield_refuted. Qed.
-Print Assumptions C10_lim_cancel_foreign_fastyield_refuted.
+Theorem C10_lim_cancel_foreign_fastyield_refuted_pinned :
+  exists ops, let s := final step_d1_pinned (init (Some 1)) ops in
+    tainted s = false /\ phase_of s 1 = FastYield 11 /\ mustc s 1 = true /\
+    snd (step_d1_pinned s (Resume 1)) = RRuntime /\
+    let s' := fst (step_d1_pinned s (Resume 1)) in
+    phase_of s' 1 = Idle /\ held s' = [] /\ borrowers s' = [11] /\ resv s' = [] /\
+    snd (step_d1_pinned s' (AcqOnNowait 2 2)) = RWouldBlock.
+Proof. exact lim_cancel_foreign_fastyield_refuted_pinned. Qed.
+Print Assumptions C10_lim_cancel_foreign_fastyield_refuted_pinned.
 
 Theorem C10_lim_no_double_borrow : forall s t b,
   phase_of s t = Idle -> In b (borrowers s) ->
